@@ -15,7 +15,7 @@ from vmon.libutil import lib_warnings, load_definition, monitored
 
 LEVEL = "exploration"
 SHARDS = {"quick": 16, "thorough": 16}
-MUST = ["histories", "outputs.joined", "outputs.single", "model.orphans", "model.gaps", "model.superseded", "wraparound.groups", "with_prefix_bytes", "mixed_header_bits", "many_open_groups", "retransmissions", "option.parse_bad_pkts_false", "outputs.withheld_as_bad"]
+MUST = ["histories", "directed.unrecognized_between_segments", "outputs.joined", "outputs.single", "model.orphans", "model.gaps", "model.superseded", "wraparound.groups", "with_prefix_bytes", "mixed_header_bits", "many_open_groups", "retransmissions", "option.parse_bad_pkts_false", "outputs.withheld_as_bad"]
 RULE = ("history = sequence of (flag, apid, in-sequence|gap) symbols turned into real CCSDS packets with unique ids and "
         "fed to packet_generator(combine_segmented_packets=True, secondary_header_bytes=s) as one byte stream; the "
         "recorded outputs (raw bytes of each yielded packet, warnings per step) are compared with a per-APID state "
@@ -222,7 +222,46 @@ def ids_in(b, pkts):
     return out
 
 
+def unrecognized_between_segments(ctx):
+    """a definition whose recognition depends on a DATA field: unsegmented packets of the same APID that the definition does not
+    recognize (and ones it does) arrive between the FIRST and the LAST of an open group - the group is still completed"""
+    from space_packet_parser import exceptions as X
+    from space_packet_parser import packets as P
+    from vmon import ir, render
+    from vmon.props.c05 import header_types
+    ts, ps = header_types("PKT_APID")
+    ts += [ir.PType("TAG_T", "integer", ir.IntEnc(8, "unsigned"))]
+    ps += [ir.Param("TAG", "TAG_T")]
+    hdr = tuple(("p", p.name) for p in ps[:7])
+    doc = ir.Doc(tuple(ts), tuple(ps), (ir.Container("CCSDSPacket", hdr + (("p", "TAG"),), None, None, True),
+                                        ir.Container("K", (), "CCSDSPacket", (ir.Comparison("TAG", "165"),))))
+    dfn = load_definition(render.render_doc(doc))
+    mk = lambda first, flag, seq, apid=77: bytes(P.create_ccsds_packet(bytes([first]) + bytes([seq % 251]) * 5, apid=apid, sequence_flags=FLAGS[flag], sequence_count=seq))
+    for between in (["bad"], ["good"], ["bad", "bad"], ["good", "bad"], ["bad-other-apid"], []):
+        for with_cont in (False, True):
+            f_, l_ = mk(0xA5, "F", 10), mk(0x33, "L", 12 if with_cont else 11)
+            grp = [f_] + ([mk(0x44, "C", 11)] if with_cont else []) + [l_]
+            mids = [mk(0x11 if b.startswith("bad") else 0xA5, "U", 900 + j, 78 if b.endswith("other-apid") else 77) for j, b in enumerate(between)]
+            stream = grp[0] + b"".join(mids) + b"".join(grp[1:])
+            joined = grp[0] + b"".join(g[6:] for g in grp[1:])
+            for yu in (False, True):
+                want = [("unrecognized", m) if b.startswith("bad") else ("packet", m) for b, m in zip(between, mids) if yu or not b.startswith("bad")] + [("packet", joined)]
+                st = monitored(lambda: list(dfn.packet_generator(stream, combine_segmented_packets=True, yield_unrecognized_packet_errors=yu)))
+                ctx.count("evaluations")
+                ctx.count("directed.unrecognized_between_segments")
+                ctx.sig("between-segments", tuple(between), with_cont, yu)
+                got = None
+                if st.exc is None:
+                    got = [("unrecognized", bytes(x.partial_data.raw_data)) if isinstance(x, X.UnrecognizedPacketTypeError) else ("packet", bytes(x.raw_data)) for x in st.value]
+                if got != want:
+                    ctx.violation(f"between-segments/{'+'.join(between) or 'nothing'}/{'reported' if yu else 'skipped'}",
+                                  f"FIRST, {between}, {'CONTINUATION, ' if with_cont else ''}LAST of one APID: outputs {[(k_, len(b_)) for k_, b_ in (got or [])]} / {st.exc!r}, "
+                                  f"expected {[(k_, len(b_)) for k_, b_ in want]}", {"between": between, "continuation": with_cont, "yield_unrecognized": yu})
+
+
 def run(ctx):
+    if ctx.shard == 2 % ctx.nshards:
+        unrecognized_between_segments(ctx)
     defn = load_definition(docs.header_plus_blob_doc())
     rng = ctx.rng("c12")
     alphabet = [(f, a, g) for f in "FCLU" for a in (0, 1) for g in (False, True)]
